@@ -82,6 +82,7 @@ type Group struct {
 }
 type Body struct {
 	Proto, Framing, TsKind string
+	Spell                  string // Zipkin: "padded" | "stripped" | "any" (the sampler decides) - how the ids are spelled on the wire
 	Spans                  []ZSpan
 	Groups                 []Group
 }
@@ -120,13 +121,14 @@ type Mech struct {
 	Responses int
 }
 type Case struct {
-	ID    string    `json:"id"`
-	Cfg   string    `json:"cfg"`
-	Body  Body      `json:"body"`
-	N     int       `json:"n"`
-	Def   []DefSpan `json:"def"`
-	Mech  Mech      `json:"mech"`
-	Flags []string  `json:"flags"`
+	ID    string     `json:"id"`
+	Cfg   string     `json:"cfg"`
+	Body  Body       `json:"body"`
+	N     int        `json:"n"`
+	Def   []DefSpan  `json:"def"`
+	Mech  Mech       `json:"mech"`
+	Flags []string   `json:"flags"`
+	Odd   [][]string `json:"odd"` // per Zipkin span: the id fields the spec says are written with an odd number of hex digits
 }
 
 // ---------------------------------------------------------------------------------------------------------------
@@ -149,7 +151,9 @@ type conc struct {
 	strs     map[string]string
 	baseUS   int64
 	scale    int64
-	strip0   bool // strip leading zeros of short zipkin ids
+	strip0   bool                // strip leading zeros of short zipkin ids
+	written  []map[string]string // per Zipkin span built: the id texts as written on the wire
+	spell    string              // the spelling the case prescribes ("padded" / "stripped"), "" or "any": strip0 decides for short ids
 	upperHex bool
 	escUni   bool // \uXXXX-escape every non-ASCII rune in Zipkin JSON
 	spaces   bool // insignificant white space in the Zipkin array framing
@@ -184,11 +188,19 @@ func (c *conc) block(m map[string]string, tok string, n int) string {
 	r := rand.New(rand.NewSource(int64(c.salt ^ hash64(tok)*31 ^ uint64(n))))
 	const hx = "0123456789abcdef"
 	b := make([]byte, n)
+	// a low block (Spans.tla LowBlocks): leading zero digits, an odd number (1, 3, .. n-1) of significant digits
+	lead := 0
+	if strings.HasPrefix(tok, "l") {
+		lead = n - 1 - 2*r.Intn(n/2)
+	}
 	for {
 		for i := range b {
 			b[i] = hx[r.Intn(16)]
+			if i < lead {
+				b[i] = '0'
+			}
 		}
-		if b[0] == '0' || strings.Count(string(b), "f") == n {
+		if b[lead] == '0' || strings.Count(string(b), "f") == n {
 			continue
 		}
 		dup := false
@@ -233,7 +245,14 @@ func (c *conc) bytesID(id []string, trace bool) []byte {
 // zipkinHex: the id as a Zipkin client may write it: short ids possibly without their leading zeros, possibly upper case
 func (c *conc) zipkinHex(id []string, trace bool) string {
 	h := c.hexID(id, trace)
-	if len(id) < 2 && c.strip0 {
+	strip := len(id) < 2 && c.strip0
+	switch c.spell {
+	case "stripped":
+		strip = true
+	case "padded":
+		strip = false
+	}
+	if strip {
 		h = strings.TrimLeft(h, "0")
 		if h == "" {
 			h = "0"
@@ -397,15 +416,20 @@ func (c *conc) zipkinSpanJSON(s ZSpan, tsKind string) string {
 		return `{"serviceName":` + c.jsonStr(c.str(e)) + `}`
 	}
 	var parts []string
+	ids := map[string]string{}
+	c.written = append(c.written, ids)
 	for _, k := range s.Order {
 		var v string
 		switch k {
-		case "traceId":
-			v = `"` + c.zipkinHex(s.Tid, true) + `"`
-		case "id":
-			v = `"` + c.zipkinHex(s.Sid, false) + `"`
-		case "parentId":
-			v = `"` + c.zipkinHex(s.Parent, false) + `"`
+		case "traceId", "id", "parentId":
+			id, trace := s.Tid, true
+			if k == "id" {
+				id, trace = s.Sid, false
+			} else if k == "parentId" {
+				id, trace = s.Parent, false
+			}
+			ids[k] = c.zipkinHex(id, trace)
+			v = `"` + ids[k] + `"`
 		case "timestamp":
 			v = num(c.micros(s.Ts))
 		case "duration":
@@ -438,8 +462,31 @@ type request struct {
 
 var zipkinRoutes = []string{"/tempo/spans", "/api/v2/spans", "/tempo/api/push"}
 
+// spellingCheck: a body with a prescribed spelling was written the way Spans.tla says (OddFields): exactly the id fields the
+// spec lists have an odd number of hex digits
+func (c *conc) spellingCheck(cs *Case) string {
+	if cs.Body.Proto != "zipkin" || (cs.Body.Spell != "padded" && cs.Body.Spell != "stripped") {
+		return ""
+	}
+	for n, ids := range c.written {
+		want := map[string]bool{}
+		if n < len(cs.Odd) {
+			for _, f := range cs.Odd[n] {
+				want[f] = true
+			}
+		}
+		for f, txt := range ids {
+			if (len(txt)%2 == 1) != want[f] {
+				return fmt.Sprintf("binding: span %d %s written as %q, Spans.tla OddFields says odd=%v", n+1, f, txt, want[f])
+			}
+		}
+	}
+	return ""
+}
+
 func (c *conc) build(b Body) request {
 	if b.Proto == "zipkin" {
+		c.spell = b.Spell
 		var spans []string
 		for _, s := range b.Spans {
 			spans = append(spans, c.zipkinSpanJSON(s, b.TsKind))
@@ -1088,6 +1135,14 @@ func traits(cs *Case) []string {
 	t[b.Proto+":"+b.Framing] = true
 	if b.Proto == "zipkin" {
 		t["ts:"+b.TsKind] = true
+		if b.Spell == "padded" || b.Spell == "stripped" {
+			t["spell:"+b.Spell] = true
+		}
+		for _, fs := range cs.Odd {
+			for _, f := range fs {
+				t["digits:odd:"+f] = true
+			}
+		}
 		for _, s := range b.Spans {
 			for _, id := range [][]string{s.Tid, s.Sid, s.Parent} {
 				switch {
@@ -1318,6 +1373,11 @@ func child(casesPath, outPath string, seed int64) error {
 		c := newConc(seed, cs.ID)
 		rq := c.build(cs.Body)
 		res.BodyBytes = len(rq.Body)
+		if msg := c.spellingCheck(&cs); msg != "" {
+			res.Infra = msg
+			emit(res)
+			continue
+		}
 		tidSet := map[string]bool{}
 		var tids []string
 		for _, d := range cs.Def {
